@@ -486,9 +486,9 @@ def run_pair(ctx, loop, label, old_devs, new_devs, mode, full_prefixes, lean_job
                 ctx.fail("save-complete:content-differs", case_base, obs_final, content_new,
                          "after a completed save() a fresh load does not give the saved content")
         else:
-            if obs_final != ("ok", content_old):
+            if obs_final not in (("ok", content_old), ("ok", content_new)):
                 ctx.fail("save-failed:old-content-lost", case_base, obs_final, content_old,
-                         "save() raised %s and the previous file content is gone" % raised)
+                         "save() raised %s and the file holds neither the previous nor the new content" % raised)
             left = [n for n in final_listing if n != "pyatv.conf"]
             ctx.note("failed-save-leftover-files:%d" % len(left))
 
